@@ -261,44 +261,115 @@ def build_writer(plan: dict, built: Built, tmpdir: str | None):
         return fd()
     w = aiohttp.MultipartWriter(plan.get("subtype", "mixed"), boundary=plan["boundary"])
     for pp in plan["parts"]:
-        h = CIMultiDict(pp.get("headers") or [])
-        if pp.get("cte"):
-            h[hdrs.CONTENT_TRANSFER_ENCODING] = pp["cte"]
-        if pp.get("enc"):
-            h[hdrs.CONTENT_ENCODING] = pp["enc"]
-        if pp.get("ctype"):
-            h[hdrs.CONTENT_TYPE] = pp["ctype"]
-        kind = pp["kind"]
-        if kind == "bytes":
-            payload = w.append(pp["content"], h)
-        elif kind == "str":
-            payload = w.append(pp["text"], h)
-        elif kind == "bytesio":
-            payload = w.append(io.BytesIO(pp["content"]), h)
-        elif kind == "agen":
-            payload = w.append(_agen(split_sizes(pp["content"], pp.get("chunks"))), h)
-        elif kind == "json":
-            payload = w.append_json(pp["obj"], h)
-        elif kind == "form":
-            payload = w.append_form(pp["pairs"], h)
-        elif kind == "file":
-            payload = w.append(_open_file(pp, built, tmpdir), h)
-        elif kind == "nested":
-            sub = build_writer(pp["sub"], built, tmpdir)
-            payload = w.append(sub, h)
-        else:
-            raise ValueError(kind)
+        h = _append_headers(pp, pp.get("headers") or [])
+        sub = build_writer(pp["sub"], built, tmpdir) if pp["kind"] == "nested" else None
+        payload = _append_part(w, pp, h, built, tmpdir, sub)
         d = pp.get("disp")
         if d:
-            params = {}
-            if d.get("name") is not None:
-                params["name"] = d["name"]
-            if d.get("filename") is not None:
-                params["filename"] = d["filename"]
-            payload.set_content_disposition(d.get("type", "attachment"), quote_fields=d.get("quote", True), **params)
+            _set_disposition(payload, d)
         if pp.get("drop_cl"):
             payload.headers.popall(hdrs.CONTENT_LENGTH, None)
     return w
+
+
+def _append_headers(pp, extra):
+    h = CIMultiDict(extra)
+    if pp.get("cte"):
+        h[hdrs.CONTENT_TRANSFER_ENCODING] = pp["cte"]
+    if pp.get("enc"):
+        h[hdrs.CONTENT_ENCODING] = pp["enc"]
+    if pp.get("ctype"):
+        h[hdrs.CONTENT_TYPE] = pp["ctype"]
+    return h
+
+
+def _append_part(w, pp, h, built, tmpdir, sub=None):
+    kind = pp["kind"]
+    if kind == "bytes":
+        return w.append(pp["content"], h)
+    if kind == "str":
+        return w.append(pp["text"], h)
+    if kind == "bytesio":
+        return w.append(io.BytesIO(pp["content"]), h)
+    if kind == "agen":
+        return w.append(_agen(split_sizes(pp["content"], pp.get("chunks"))), h)
+    if kind == "json":
+        return w.append_json(pp["obj"], h)
+    if kind == "form":
+        return w.append_form(pp["pairs"], h)
+    if kind == "file":
+        return w.append(_open_file(pp, built, tmpdir), h)
+    if kind == "nested":
+        return w.append(sub, h)
+    raise ValueError(kind)
+
+
+def _set_disposition(payload, d, name=None):
+    params = {}
+    if d.get("name") is not None:
+        params["name"] = d["name"] if name is None else name
+    if d.get("filename") is not None:
+        params["filename"] = d["filename"]
+    payload.set_content_disposition(d.get("type", "attachment"), quote_fields=d.get("quote", True), **params)
+
+
+def subplan(plan: dict, path) -> dict:
+    for k in path:
+        plan = plan["parts"][k]["sub"]
+    return plan
+
+
+async def build_by_program(plan: dict, prog: list, built: Built, tmpdir, log: list):
+    """Builds the writer tree of `plan` by executing a *program*: the public API calls that assemble it, in the order
+    the program says (vlib/mpgen.gen_program), interleaved with reads of `size` - optionally followed by writing the
+    writer as it stands into a recorder.  The end state is the one build_writer(plan) produces.
+
+      new      MultipartWriter for the nested part at `path`
+      append   part i of the writer at `path` (headers listed in "early" are passed to append, the others follow)
+      hdr      payload.headers[name] = value          (a provisional value, later the final one)
+      del_hdr  del payload.headers[name]
+      disp     payload.set_content_disposition(...)   (a provisional name, later the final one)
+      drop_cl  payload.headers.popall(Content-Length)
+      size     read writer.size -> log; with "write": also `await writer.write(recorder)` -> bytes written
+    """
+    writers = {(): aiohttp.MultipartWriter(plan.get("subtype", "mixed"), boundary=plan["boundary"])}
+    payloads: dict = {}
+    for idx, st in enumerate(prog):
+        op = st["op"]
+        path = tuple(st["path"])
+        if op == "new":
+            sp = subplan(plan, path)
+            writers[path] = aiohttp.MultipartWriter(sp.get("subtype", "mixed"), boundary=sp["boundary"])
+        elif op == "append":
+            pp = subplan(plan, path)["parts"][st["i"]]
+            hs = pp.get("headers") or []
+            h = _append_headers(pp, [hs[j] for j in st.get("early", ())])
+            payloads[path + (st["i"],)] = _append_part(writers[path], pp, h, built, tmpdir, writers.get(path + (st["i"],)))
+        elif op == "size":
+            w = writers[path]
+            ent = {"step": idx, "path": list(path), "size": w.size, "written": None, "final": bool(st.get("final")), "parts": len(w)}
+            if st.get("write"):
+                rw = RecWriter()
+                await w.write(rw)
+                ent["written"] = rw.nbytes
+                ent["size_after_write"] = w.size
+            log.append(ent)
+        else:
+            payload = payloads[path + (st["i"],)]
+            pp = subplan(plan, path)["parts"][st["i"]]
+            if op == "hdr":
+                n, v = pp["headers"][st["h"]]
+                payload.headers[n] = st.get("value", v)
+            elif op == "del_hdr":
+                n, v = pp["headers"][st["h"]]
+                payload.headers.popall(n, None)
+            elif op == "disp":
+                _set_disposition(payload, pp["disp"], st.get("name"))
+            elif op == "drop_cl":
+                payload.headers.popall(hdrs.CONTENT_LENGTH, None)
+            else:
+                raise ValueError(op)
+    return writers[()]
 
 
 def _open_file(pp, built: Built, tmpdir):
@@ -470,14 +541,25 @@ def where_in_aiohttp(exc: BaseException) -> str:
     return "harness"
 
 
-def read_back(loop, content_type: str, segs, feed: dict, scripts, *, budget=None, reader_kw=None, limit=2**16, max_depth=64):
-    """Runs the real MultipartReader over the segments.  Returns (obs, exc, stream, ctx)."""
+def read_back(loop, content_type: str, segs, feed: dict, scripts, *, budget=None, reader_kw=None, limit=2**16, max_depth=64, via_request=None):
+    """Runs the real MultipartReader over the segments.  Returns (obs, exc, stream, ctx).
+    via_request: the reader is the one `await request.multipart()` hands to a web handler (mocked request whose payload
+    is the fed stream; keys client_max_size / max_field_size / max_headers configure the request and its protocol)."""
     stream = FedStream(segs, loop, mode=feed.get("mode", "prefed"), burst=feed.get("burst", 1), eof_with_last=feed.get("eof_with_last", True), limit=limit, budget=budget)
     ctx = Ctx(stream, max_depth=max_depth)
     obs: list = []
 
     async def main():
-        reader = MultipartReader({hdrs.CONTENT_TYPE: content_type}, stream, **(reader_kw or {}))
+        if via_request is not None:
+            from aiohttp.test_utils import make_mocked_request
+
+            req = make_mocked_request("POST", "/", headers={"Content-Type": content_type}, payload=stream, client_max_size=via_request.get("client_max_size", 1024**2))
+            for k in ("max_field_size", "max_headers"):
+                if k in via_request:
+                    setattr(req._protocol, k, via_request[k])  # the (mock) protocol's configured limits
+            reader = await req.multipart()
+        else:
+            reader = MultipartReader({hdrs.CONTENT_TYPE: content_type}, stream, **(reader_kw or {}))
         await drive(reader, scripts, obs, ctx)
 
     st, task = loop.run_coro(main(), max_iters=2_000_000)
